@@ -149,7 +149,13 @@ func convertVMFunctionToType(rv reflect.Value, rt reflect.Type) (reflect.Value, 
 		// for runVMFunction first arg is always context
 		// TOFIX: use normal context
 		args = append(args, reflect.ValueOf(context.Background()))
+		rvType := rv.Type()
 		for i := 0; i < rt.NumIn(); i++ {
+			if rvType.IsVariadic() && i >= rvType.NumIn()-2 {
+				// the variadic parameter of a runVMFunction takes the values themselves
+				args = append(args, in[i])
+				continue
+			}
 			// have to do the double reflect.ValueOf that runVMFunction expects
 			args = append(args, reflect.ValueOf(in[i]))
 		}
